@@ -95,6 +95,17 @@ Module Ex.
   Proof. exact trace_putback_accepted. Qed.
   Lemma trace_value : impl_sim_sched s_zero s_add cat K Nat.eqb gr (sel []) (schedule_of trace) = Some expected.
   Proof. vm_compute. reflexivity. Qed.
+
+  (** a run in which writing and purging happen BETWEEN single link applications *)
+  Definition trace_fine : list plabel :=
+    [LRun 0; LSpawn 0; LLinkOne 0; LLinkOne 0; LWrite 0; LLinkOne 0; LLinkOne 0; LLinkOne 0; LLinks 0;
+     LRun 1; LSpawn 1; LLinkOne 1; LRecv 1 0; LPurge 1 0; LLinkOne 1; LWrite 1; LLinkOne 1; LLinks 1;
+     LRun 2; LSpawn 2; LLinks 2; LRecv 2 1; LPurge 2 1; LWrite 2; LMainRecv 2; LExit].
+  Lemma trace_fine_run : accepts_exited 3 true trace_fine = true.
+  Proof. vm_compute. reflexivity. Qed.
+  Lemma trace_fine_value :
+    impl_sim_sched s_zero s_add cat K Nat.eqb gr (sel []) (schedule_of trace_fine) = Some expected.
+  Proof. vm_compute. reflexivity. Qed.
 End Ex.
 
 (** The example is an instance of the theorems (hypotheses satisfiable), with a
@@ -105,10 +116,12 @@ Lemma example_nonvacuous :
   impl_sim Ex.s_zero Ex.s_add Ex.cat Ex.K Nat.eqb Ex.gr (Ex.sel []) = Some Ex.expected /\
   ref_sim Ex.s_zero Ex.s_add Ex.cat Ex.K Nat.eqb Ex.gr (Ex.sel []) = Some Ex.expected /\
   accepts_exited 3 true Ex.trace = true /\
-  impl_sim_sched Ex.s_zero Ex.s_add Ex.cat Ex.K Nat.eqb Ex.gr (Ex.sel []) (schedule_of Ex.trace) = Some Ex.expected.
+  impl_sim_sched Ex.s_zero Ex.s_add Ex.cat Ex.K Nat.eqb Ex.gr (Ex.sel []) (schedule_of Ex.trace) = Some Ex.expected /\
+  accepts_exited 3 true Ex.trace_fine = true /\
+  impl_sim_sched Ex.s_zero Ex.s_add Ex.cat Ex.K Nat.eqb Ex.gr (Ex.sel []) (schedule_of Ex.trace_fine) = Some Ex.expected.
 Proof.
   exact (conj Ex.valid (conj Ex.K_ok (conj Ex.no_split (conj Ex.impl_value (conj Ex.ref_value
-           (conj Ex.trace_run Ex.trace_value)))))).
+           (conj Ex.trace_run (conj Ex.trace_value (conj Ex.trace_fine_run Ex.trace_fine_value)))))))).
 Qed.
 
 (** ---------- the external-writer mode does not satisfy the property ---------- *)
